@@ -237,7 +237,17 @@ def run_history(case):
     kind, cfg, steps = case["kind"], case["cfg"], case["steps"]
     env = Env(cas_start=cfg.get("cas_start", 0))
     clock = env.clock
-    c = env.client(kind, key_prefix=cfg.get("key_prefix", b""), default_noreply=cfg.get("default_noreply", True),
+    skw = {}
+    if cfg.get("serde") == "pickle":
+        # objects as values, through the module-level pickle serializer: a value of the Nesting kind stores another object
+        # through the same serializer while it is being pickled (props/c15.py)
+        from props import c15
+        from pymemcache import serde as S_
+        skw["serde"] = S_.pickle_serde
+        c15.Nesting.hook = lambda other: S_.pickle_serde.serialize("another-key", other)
+        steps = [dict(s_, value=c15.build(tuple(s_["vspec"]) if isinstance(s_["vspec"], list) else s_["vspec"])) if "vspec" in s_ else s_ for s_ in steps]
+        steps = [{k_: v_ for k_, v_ in s_.items() if k_ != "vspec"} for s_ in steps]
+    c = env.client(kind, **skw, key_prefix=cfg.get("key_prefix", b""), default_noreply=cfg.get("default_noreply", True),
                    **({"allow_unicode_keys": True} if cfg.get("allow_unicode_keys") else {}), **({"ignore_exc": True} if cfg.get("ignore_exc") else {}))
     universe = KEYS + (UKEYS if cfg.get("allow_unicode_keys") else [])
     model = Model(clock, cfg.get("default_noreply", True))
@@ -347,7 +357,11 @@ def _respell(r):
 
 
 def check(case):
-    return run_history(case)
+    try:
+        return run_history(case)
+    finally:
+        from props import c15
+        c15.Nesting.hook = None
 
 
 # ---- bounded-exhaustive alphabet --------------------------------------------------
@@ -418,6 +432,15 @@ def exhaustive_cases(tier, seed):
                         yield {"kind": kind, "cfg": {"key_prefix": b"r:" if pos else b"", "default_noreply": False, "refuse": {keys[pos]: mode}},
                                "steps": pre + [{"op": "set_many", "values": vals, "noreply": nr}, {"op": "get_many", "keys": keys}, {"op": "add", "key": keys[pos], "value": b"a", "noreply": False},
                                                {"op": "set", "key": keys[pos], "value": b"again", "noreply": nr}, {"op": "gets", "key": keys[(pos + 1) % 3]}]}
+    # objects as values (pickle serializer), among them values whose pickling stores another object through the same serializer
+    NV = [("nesting", ("str", "outer"), ("list", [("int", 1), ("int", 2)])), ("list", [("str", "plain"), ("int", 5)]), ("nesting", ("int", 7), ("dict", [[("str", "who"), ("str", "bob")]]))]
+    for a in range(len(NV)):
+        for b in range(len(NV)):
+            for kind in ("client", "pooled", "hash", "hash-pooled"):
+                yield {"kind": kind, "cfg": {"key_prefix": b"o:", "default_noreply": False, "serde": "pickle"},
+                       "steps": [{"op": "set", "key": K, "vspec": NV[a], "noreply": False}, {"op": "get", "key": K}, {"op": "add", "key": "k1", "vspec": NV[b], "noreply": False},
+                                 {"op": "replace", "key": K, "vspec": NV[b], "noreply": False}, {"op": "get_many", "keys": [K, "k1", "k2"]}, {"op": "delete", "key": K, "noreply": False},
+                                 {"op": "set_many", "values": {}, "noreply": False}, {"op": "gets", "key": "k1"}]}
     # a shallow copy of the object takes over (or is made and dropped) at every position of a short history
     hs = [{"op": "set", "key": K, "value": b"5", "noreply": False}, {"op": "add", "key": K, "value": b"a", "noreply": False}, {"op": "incr", "key": K, "delta": 2},
           {"op": "get", "key": K}, {"op": "delete", "key": K, "noreply": False}, {"op": "set", "key": "k1", "value": b"n", "noreply": True}, {"op": "gets", "key": "k1"}]
